@@ -81,6 +81,8 @@ def gen_angles(rng, n, tier="quick"):
     """moon azimuth / elevation / zenith; every instant in several spellings one after the
     other (naive UTC, aware UTC, zones, the other fold of an ambiguous wall time)"""
     i = 0
+    shared = Observer(0.0, 0.0)      # one object moved from place to place between calls
+    prev = None
     while i < n:
         lat = gens.rand_lat(rng)
         lon = gens.rand_lon(rng)
@@ -102,6 +104,15 @@ def gen_angles(rng, n, tier="quick"):
             zamb, n_ = zones.ambiguous_instant(rng)
             if zamb is not None:
                 naive = n_
+        reused = False
+        if rng.random() < 0.35:
+            if zamb is None and prev is not None and rng.random() < 0.6:
+                naive = prev            # the same instant from another place
+            shared.latitude = lat
+            shared.longitude = lon
+            o = shared
+            reused = True
+        prev = naive
         u = naive.replace(tzinfo=UTC)
         spell = [(naive, "naive", naive)]
         if zamb is not None:
@@ -129,7 +140,8 @@ def gen_angles(rng, n, tier="quick"):
             yield Case("moon." + name, "moon_%s %s %s %s" % (name, F(lat), F(lon), I(wall_us(as_utc))),
                        FS(v) if st == "ok" else E(v),
                        {"latitude": lat, "longitude": lon, "datetime": dt.isoformat(), "zone": zl,
-                        "fold": dt.fold})
+                        "fold": dt.fold, "observer_object": "re-assigned" if reused else "fresh"},
+                       live={"observer": o, "result": (st, v)})
 
 
 def lon_for_end_of_utc_day(rng, lat, lon, d, idx):
